@@ -5,14 +5,14 @@ line of a (seed, check) pair is the first pass, later ones are re-runs after the
 import json, os, re, sys
 S = os.path.join(os.path.dirname(os.path.dirname(os.path.abspath(__file__))), "seeded")
 runs = {}
-for f in ("round3_results.txt", "round4_results.txt"):
+for f in ("round3_results.txt", "round4_results.txt", "round5_results.txt"):
     for l in open(os.path.join(S, f)):
         m = re.match(r"(C\d+[a-z]) (C\d+) exit=(\d) ?(.*)", l)
         if m:
             runs.setdefault(m.group(1), {}).setdefault(m.group(2), []).append((m.group(3) == "1", "no-failing-input-found" in m.group(4), m.group(4)[:160]))
 rows = []
 for sid in sorted(os.listdir(S)):
-    if not re.fullmatch(r"C\d+[efgh]", sid):
+    if not re.fullmatch(r"C\d+[efghij]", sid):
         continue
     meta = json.load(open(os.path.join(S, sid, "meta.json")))
     what = (meta.get("summary") or "")[:150].replace("|", "/").replace("\n", " ")
